@@ -13,7 +13,7 @@ EXPLANATION = (
     'instruction bits in assembler operand order — encoder and decoder are each compared with the manual, hence with '
     'each other. T-LEN: for every CPU whose encoder emits through a single add_binW unit, each constant length returned '
     'by its decoder is a positive multiple of W (== W for fixed-size ISAs). T-CPU: every cpu_list row has a legal '
-    'bytes_per_address and non-null handlers. T-ORACLE(4004) / T-ORACLE(1802): every table row with a documented Intel 4004 / RCA CDP1802 mnemonic has that instruction's opcode and fixed-bit mask. T-ORACLE(6502) / T-ORACLE(8051): every documented opcode of the NMOS 6502 and of the MCS-51 sits at its index in the opcode-indexed tables with its mnemonic, addressing mode / operand kinds and register number, no mnemonic+mode pair is listed twice, and the per-mode lengths agree. Not decided: the round trip for other CPUs / arbitrary operand values.')
+    'bytes_per_address and non-null handlers. T-ORACLE(4004) / T-ORACLE(1802): every table row with a documented Intel 4004 / RCA CDP1802 mnemonic has the opcode and fixed-bit mask of that instruction. T-ORACLE(6502) / T-ORACLE(8051): every documented opcode of the NMOS 6502 and of the MCS-51 sits at its index in the opcode-indexed tables with its mnemonic, addressing mode / operand kinds and register number, no mnemonic+mode pair is listed twice, and the per-mode lengths agree. Not decided: the round trip for other CPUs / arbitrary operand values.')
 
 
 def run(tier, t0):
